@@ -30,6 +30,9 @@ CLAIMS = {
  "C11": ("Structural clauses only: every field-held resource (pool allocation, epoll fd, both pipe ends, queue, thread) has a release of that field on the tp_destroy path; failing exits of tp_create / tpt_msg_queue_create / tpt_data_init release what they acquired; the self-join guard (EDEADLK) dominates every join/poll/release and a failed wait releases nothing; worker hooks bracket the loop exactly once; the virtual thread's start hook follows its successful init and its stop hook runs only if it was started; the shutdown latch is atomic. Termination / no late callback for every schedule is NOT decided.",
          "Trusts clang 14 CFG and the direct-call graph (function pointers are only user hooks/callbacks).",
          "static analysis: acquire/release pairing over the call graph, path enumeration of failing exits, guard dominance, race lint on life-cycle latch"),
+ "C16": ("Structural clauses only: every event registration call in threadpool_task.c pairs the timer event with the timer record and the I/O event with the I/O record; the read/write handler has a single non-cyclic user-callback site; in each transfer loop the transferred count, file offset and all buffer cursors advance by the same I/O result; partial totals are saved on every re-arm exit, folded in and cleared before the callback; re-arm only on CONTINUE; pre/post handler symmetry; stop removes both registrations, destroy stops before free; the immediate first transfer requires offset+transfer <= size. Byte-exact delivery and EOF/error/timeout reporting over schedules are NOT decided.",
+         "Trusts clang 14 CFG; IO_BUF_* saturating macros not analysed.",
+         "static analysis: call-site argument agreement table, loop-body update-set comparison, dominance, guard evaluation"),
  "C07": ("Pad-wiping clause decided completely (k_ipad, k_opad, inner context wiped on every path; every local HMAC context reaches its final); no context read after final; RFC 2104 skeleton (strict block comparison, zero padding, 0x36/0x5c over whole block, inner/outer order). MAC equality is NOT decided.",
          "Trusts clang 14 CFG, typestate dataflow in rules/r_ts.py; *_final wiping its context is C04's obligation.",
          "static analysis: typestate dataflow + post-dominance + structural skeleton match"),
